@@ -339,7 +339,8 @@ def r3(run: Run, src, cg):
         if s.how == 'cha' and s.caller.cls is not None and s.caller.cls.name == 'Executor':
             continue
         q = s.caller.qualname
-        run.check(q.startswith('CellTranslator.'), 'C03.R3', f'{q} -> Context.set_cell', 'foreign-registration',
+        owner = s.caller.cls.name if s.caller.cls is not None else q          # keyed by class: helper methods may be split off
+        run.check(q.startswith('CellTranslator.'), 'C03.R3', f'{owner} -> Context.set_cell', 'foreign-registration',
                   f'{q} registers cell translations itself: what a cell means then depends on which other cells were translated '
                   f'before it (entry-point slice and whole-file translation can differ)', fact='only CellTranslator registers cells',
                   loc=loc_of(s.caller.module.path, s.node))
@@ -354,7 +355,8 @@ def r3(run: Run, src, cg):
             continue
         if moved:
             for st in moved:
-                run.bad('C03.R3', f'{f.qualname}/{st.target}', 'cell-moved',
+                owner = f.cls.name if f.cls is not None else f.qualname
+                run.bad('C03.R3', f'{owner}/cell.{st.attr}', 'cell-moved',
                         f'{f.qualname} (reachable from _translate) rewrites the coordinate `{st.target}` of a Cell during translation: '
                         f'later references to that cell object point elsewhere', loc=loc_of(f.module.path, st.node))
         else:
